@@ -179,6 +179,7 @@ fn wrong_kind(ty: &Ty, u: &mut U) -> J {
 
 fn gen_case(tape: Vec<u8>) -> Case {
     let mut u = U::new(&tape);
+    let style = u.u64();
     let model = td::gen_model(&mut u, 3, 60);
     let mut doc = td::render_doc(&model, &mut u);
     let mut positions = vec![];
@@ -218,13 +219,13 @@ fn gen_case(tape: Vec<u8>) -> Case {
                     }
                 }
             }
-            return Case { doc: doc.render(), model: None, mutation: "undefined-struct-type".into(), ty: undefined.to_string(), depth: 0, detail: format!("{sname}.{}", def.members[mi].0), lenient: false };
+            return Case { doc: doc.render_styled(style), model: None, mutation: "undefined-struct-type".into(), ty: undefined.to_string(), depth: 0, detail: format!("{sname}.{}", def.members[mi].0), lenient: false };
         }
         // graph without members: fall back to an undeclared top-level member
         if let Some(J::Obj(kv)) = at(&mut doc, &[Step::Key("message".into())]) {
             kv.push(("undeclared".into(), J::Num("1".into())));
         }
-        return Case { doc: doc.render(), model: None, mutation: "undeclared-member".into(), ty: model.primary.clone(), depth: 0, detail: "top level".into(), lenient: false };
+        return Case { doc: doc.render_styled(style), model: None, mutation: "undeclared-member".into(), ty: model.primary.clone(), depth: 0, detail: "top level".into(), lenient: false };
     }
     let pos = &positions[cands[u.below(cands.len())]];
     let depth = depth_of(pos);
@@ -251,11 +252,16 @@ fn gen_case(tape: Vec<u8>) -> Case {
         3 => {
             let Ty::BytesN(n) = pos.ty else { unreachable!() };
             let n = n as usize;
-            let len = match u.below(4) {
+            let len = match u.below(9) {
                 0 if n > 1 => n - 1,
                 1 => n + 1,
                 2 => 0,
-                _ => 33,
+                3 => 33,
+                4 => n + 256,
+                5 => n + 512,
+                6 => [64usize, 255, 256, 257, 288, 1024][u.below(6)],
+                7 => 2 * n,
+                _ => 32 + n,
             };
             let len = if len == n { n + 1 } else { len };
             *slot = J::Str(format!("0x{}", hex_lower(&u.bytes(len))));
@@ -340,7 +346,7 @@ fn gen_case(tape: Vec<u8>) -> Case {
         m
     });
     let lenient = mutation == "control-integer-in-range" && detail.ends_with("as hex-string") && detail.starts_with('-');
-    Case { doc: doc.render(), model: model_out, mutation: mutation.to_string(), ty: tyname, depth, detail, lenient }
+    Case { doc: doc.render_styled(style), model: model_out, mutation: mutation.to_string(), ty: tyname, depth, detail, lenient }
 }
 
 fn judge(c: &Case, cls: &mut Classifier) -> Verdict {
@@ -456,7 +462,7 @@ fn judge_cli(c: &Case, cls: &mut Classifier) -> Verdict {
 }
 
 pub fn run(ctx: &mut Ctx) {
-    ctx.rule = "a well-typed document from the C08 generator, one position chosen among ALL positions of the value tree (top level, nested structs, array elements at any depth, domain values) and one mutation making it non-conforming: uintN/intN just outside the range (-1, -2^(N-1), 2^N, 2^N+1, 2^256 / -2^(N-1)-1, 2^(N-1), 2^N-1, 2^N, -2^N) in every spelling that can carry the value (JSON integer, integral float, decimal string, hex string), bytesN of N-1/N+1/0/33 bytes, fixed array of size-1/size+1, a missing member, an undeclared member, a member type renamed to an undefined struct, a JSON value of the wrong kind, malformed bytes/addresses; controls: in-range neighbours (0, 2^N-1, -2^(N-1), 2^(N-1)-1, -1) must be accepted and hash to the reference value. Plus the exhaustive grid 32 widths x {uint,int} x boundaries x spellings on a minimal document, and a CLI sample (sign/hash typeddata must fail with empty stdout). Non-trivial: every mutated document; distinct by document.".into();
+    ctx.rule = "a well-typed document from the C08 generator, one position chosen among ALL positions of the value tree (top level, nested structs, array elements at any depth, domain values) and one mutation making it non-conforming: uintN/intN just outside the range (-1, -2^(N-1), 2^N, 2^N+1, 2^256 / -2^(N-1)-1, 2^(N-1), 2^N-1, 2^N, -2^N) in every spelling that can carry the value (JSON integer, integral float, decimal string, hex string), bytesN of N-1/N+1/0/33/2N/32+N/N+256/N+512/64..1024 bytes, fixed array of size-1/size+1, a missing member, an undeclared member, a member type renamed to an undefined struct, a JSON value of the wrong kind, malformed bytes/addresses; controls: in-range neighbours (0, 2^N-1, -2^(N-1), 2^(N-1)-1, -1) must be accepted and hash to the reference value. Plus the exhaustive grid 32 widths x {uint,int} x boundaries x spellings on a minimal document, and a CLI sample (sign/hash typeddata must fail with empty stdout). Non-trivial: every mutated document; distinct by document.".into();
     ctx.assumptions = vec!["float literals that f64 cannot carry exactly are not generated here (known finding json-float-literal-rounded, C13)".into()];
     if let Some(c) = &ctx.cli {
         let _ = CLI.set(c.clone());
